@@ -22,7 +22,33 @@ type c16Case struct {
 	RPlan  []pair.ReadEv `json:"rplan"`
 	Trace  bool          `json:"trace"` // a TraceWriter is configured
 	Family string        `json:"family"`
+	// Kinds[i], when present and not "", makes document i a well-formed JSON value that is not a valid
+	// envelope: "type-error" (a member of the wrong JSON type), "bad-mediatype", "no-kind" (no member that
+	// tells the kind). Receive must refuse it with that error, and go on: it was taken off the stream.
+	Kinds []string `json:"kinds,omitempty"`
 }
+
+// c16Doc is document i of the case: n bytes of JSON text.
+func c16Doc(kind string, n int) []byte {
+	var pre, post string
+	switch kind {
+	case "type-error":
+		pre, post = `{"id":5,"pad":"`, `"}`
+	case "bad-mediatype":
+		pre, post = `{"id":"1","type":"/","content":"`, `"}`
+	case "no-kind":
+		pre, post = `{"id":"`, `"}`
+	default:
+		return c16Text(n)
+	}
+	if n < len(pre)+len(post) {
+		n = len(pre) + len(post)
+	}
+	return []byte(pre + strings.Repeat("a", n-len(pre)-len(post)) + post)
+}
+
+// c16Refusal is the error text with which Receive refuses a document of that kind.
+var c16Refusal = map[string]string{"type-error": "cannot unmarshal", "bad-mediatype": "invalid media type", "no-kind": "could not determine the envelope type"}
 
 type discardTrace struct{ s, r io.Writer }
 
@@ -50,8 +76,17 @@ func c16Run(e *Env, c *c16Case) error {
 	e.Rep.Eval()
 	e.Rep.Count("family=" + c.Family)
 	var stream []byte
-	for _, n := range c.Sizes {
-		stream = append(stream, c16Text(n)...)
+	kindOf := func(i int) string {
+		if i < len(c.Kinds) {
+			return c.Kinds[i]
+		}
+		return ""
+	}
+	docLen := make([]int, len(c.Sizes))
+	for i, n := range c.Sizes {
+		d := c16Doc(kindOf(i), n)
+		docLen[i] = len(d)
+		stream = append(stream, d...)
 		stream = append(stream, '\n')
 	}
 	cfg := &lime.TCPConfig{ReadLimit: c.L}
@@ -71,6 +106,13 @@ func c16Run(e *Env, c *c16Case) error {
 		env, err := rx.Receive(ctx)
 		cancel()
 		o := c16Recv{OK: err == nil, Consumed: rc.Consumed() - before, Reads: []int{}}
+		refusedAsExpected := false
+		if i < len(c.Sizes) && kindOf(i) != "" && err != nil && strings.Contains(err.Error(), c16Refusal[kindOf(i)]) {
+			// the document was taken off the stream and refused for what it is: for the read budget this
+			// Receive succeeded
+			refusedAsExpected = true
+			o.OK = true
+		}
 		for _, r := range rc.TakeReads() {
 			if r.N > 0 {
 				o.Reads = append(o.Reads, r.N)
@@ -84,11 +126,16 @@ func c16Run(e *Env, c *c16Case) error {
 		if o.Consumed > L {
 			e.Rep.Violate("impl", "c16-consumed", fmt.Sprintf("Receive #%d consumed %d bytes from the connection, the read limit is %d", i, o.Consumed, L), c)
 		}
-		if i < len(c.Sizes) {
-			n := c.Sizes[i]
-			if n < c16Base {
-				n = c16Base
+		if i < len(c.Sizes) && kindOf(i) != "" {
+			n := docLen[i]
+			e.Rep.Count("document: " + kindOf(i))
+			if err == nil {
+				e.Rep.Violate("impl", "c16-other", fmt.Sprintf("document #%d (%s) was accepted as an envelope", i, kindOf(i)), c)
+			} else if n+1 <= L && !refusedAsExpected {
+				e.Rep.Violate("impl", "c16-refused", fmt.Sprintf("document #%d (%s) of %d bytes (+1 separator) is within the limit %d but the stream failed on it: %v", i, kindOf(i), n, L, err), c)
 			}
+		} else if i < len(c.Sizes) {
+			n := docLen[i]
 			switch {
 			case n+1 <= L:
 				e.Rep.Count("size: within the limit")
@@ -114,17 +161,15 @@ func c16Run(e *Env, c *c16Case) error {
 		} else if err == nil {
 			e.Rep.Violate("impl", "c16-other", "an envelope is handed out after the end of the stream", c)
 		}
-		if err != nil {
+		if err != nil && !refusedAsExpected {
 			break
 		}
 	}
-	e.Rep.Nontrivial(fmt.Sprintf("%d %v %v %v", c.L, c.Sizes, len(c.RPlan), c.Trace))
+	e.Rep.Nontrivial(fmt.Sprintf("%d %v %v %v %v", c.L, c.Sizes, len(c.RPlan), c.Trace, c.Kinds))
 	if e.Drv != nil {
 		frames := make([]int, len(c.Sizes))
-		for i, n := range c.Sizes {
-			if n < c16Base {
-				n = c16Base
-			}
+		for i := range c.Sizes {
+			n := docLen[i]
 			frames[i] = n + 1 // the separator that precedes the value
 			if i == 0 {
 				frames[i] = n
@@ -207,7 +252,7 @@ func c16Listener(e *Env, L int64, size int) error {
 
 func init() {
 	Register("c16", func(e *Env) error {
-		e.Rep.Rule = "real TCP transport (hook constructor, server role) with configured read limits 64..4096 and the default, over a scripted connection; streams of 1..20 text messages of exact sizes around L, 2L, 10L at every position, after coalesced and separately delivered predecessors, delivered coalesced / byte by byte / in random pieces with transient timeouts; with and without a TraceWriter; per Receive the result and the number of bytes taken from the connection are compared with the statement (consumed <= L; size+1 <= L accepted; size > 2L refused) and with the model's budget loop run on the observed read sizes; plus transports accepted by a real TCP listener. Non-trivial = every case; distinct by limit, sizes and plan."
+		e.Rep.Rule = "real TCP transport (hook constructor, server role) with configured read limits 64..4096 and the default, over a scripted connection; streams of 1..20 text messages of exact sizes around L, 2L, 10L at every position, after coalesced and separately delivered predecessors, after runs of well-formed documents that Receive refuses (wrong member type, invalid media type, no kind), delivered coalesced / byte by byte / in random pieces with transient timeouts; with and without a TraceWriter; per Receive the result and the number of bytes taken from the connection are compared with the statement (consumed <= L; size+1 <= L accepted; size > 2L refused) and with the model's budget loop run on the observed read sizes; plus transports accepted by a real TCP listener. Non-trivial = every case; distinct by limit, sizes and plan."
 		if e.Replay != "" {
 			b, err := readReplayCase(e.Replay)
 			if err != nil {
@@ -245,6 +290,30 @@ func init() {
 					}
 					for _, p := range append(plans(pre+s+2), []pair.ReadEv{{Kind: "data", N: pre}, {Kind: "data", N: 1}}, []pair.ReadEv{{Kind: "data", N: pre + 1}}) {
 						if err := c16Run(e, &c16Case{Family: "after-predecessor", L: L, Sizes: []int{pre, s}, RPlan: p, Trace: trace}); err != nil {
+							return err
+						}
+					}
+				}
+			}
+		}
+		// after documents that were taken off the stream and refused (well-formed JSON, not an envelope):
+		// "no matter how much data preceded it on the same connection"
+		for _, L := range limits {
+			for _, kind := range []string{"type-error", "bad-mediatype", "no-kind"} {
+				for _, last := range []int{c16Base, int(L) / 2, int(L) - 1} {
+					each := int(L)/3 + 40
+					if each+1 > int(L) {
+						each = int(L) - 1
+					}
+					sizes, kinds, total := []int{}, []string{}, 0
+					for j := 0; j < 5; j++ {
+						sizes, kinds = append(sizes, each), append(kinds, kind)
+						total += len(c16Doc(kind, each)) + 1
+					}
+					sizes, kinds = append(sizes, last), append(kinds, "")
+					total += last + 1
+					for _, p := range [][]pair.ReadEv{nil, randomReadPlan(e, total), repeatRead(total, 7)} {
+						if err := c16Run(e, &c16Case{Family: "after-refused", L: L, Sizes: sizes, Kinds: kinds, RPlan: p}); err != nil {
 							return err
 						}
 					}
